@@ -71,6 +71,19 @@ func (h *Header) HeaderLength() uint16 {
 	}
 }
 
+// EncodedHeaderLength returns the length of the packet header encoded at the
+// beginning of buf.
+//
+// The header form is determined by the first byte of the packet, not by the
+// announced packet length: a 3-byte Length field can also announce a packet
+// of 255 or less bytes.
+func EncodedHeaderLength(buf []byte) uint16 {
+	if len(buf) > 0 && buf[0] == longPacketFlag {
+		return longHeaderLength
+	}
+	return shortHeaderLength
+}
+
 // Unpack reads a packet header from the given buffer.
 func (h *Header) Unpack(buf []byte) error {
 	if len(buf) < 2 {
